@@ -121,6 +121,9 @@ func (x *Exec) substV(v Value, m map[*Term]*Term, memo map[*Term]*Term) Value {
 			return &PtrV{Obj: u.Obj, Path: u.Path, Nil: x.b.Subst(u.Nil, m, memo)}
 		}
 	case *IfaceV:
+		if u.AltC != nil {
+			return &IfaceV{AltC: x.b.Subst(u.AltC, m, memo), AltA: x.substV(u.AltA, m, memo).(*IfaceV), AltB: x.substV(u.AltB, m, memo).(*IfaceV), T: u.T}
+		}
 		if u.Nil != nil {
 			return &IfaceV{Nil: x.b.Subst(u.Nil, m, memo), Dyn: u.Dyn, DynT: u.DynT, Opaque: u.Opaque, T: u.T}
 		}
@@ -182,6 +185,9 @@ func (x *Exec) twinVal(v Value, t *twins, h Heap) Value {
 		}
 		return &MapV{Obj: x.twinObj(u.Obj, t, h), Nil: u.Nil, T: u.T}
 	case *IfaceV:
+		if u.AltC != nil {
+			return &IfaceV{AltC: u.AltC, AltA: x.twinVal(u.AltA, t, h).(*IfaceV), AltB: x.twinVal(u.AltB, t, h).(*IfaceV), T: u.T}
+		}
 		if u.Dyn != nil {
 			return &IfaceV{Nil: u.Nil, Dyn: x.twinVal(u.Dyn, t, h), DynT: u.DynT, T: u.T}
 		}
